@@ -230,6 +230,22 @@ func runSchedules(c *Check, seed uint64, i int, tier string, st *core.Stats) {
 	if base.Template != "" {
 		st.Probes["template."+base.Template]++
 	}
+	if c.ID == "C10" {
+		// a quarter of the runs happen on an instance that has executed before (other or the same facts): what
+		// that call retracted or completed is over with that call
+		r := core.NewRand(core.Mix(rs, 0x10))
+		if r.Intn(4) == 0 {
+			g := &gen.G{R: r, Prof: profileFor("C10")}
+			base.Calls = []core.Call{{Mode: "execute", Facts: g.Facts(), MaxCycle: uint64(r.Range(1, 5)), RetErr: r.Chance(1, 3)}}
+			if r.Chance(1, 2) {
+				base.Calls[0].Facts = base.Facts
+			}
+		}
+	}
+	if c.ID == "C01" || c.ID == "C02" || c.ID == "C10" || c.ID == "C13" {
+		// one run in eight: the data context has been used with another instance before
+		base.Knobs.OtherInstanceFirst = core.Mix(rs, 0x01f)%8 == 0
+	}
 	if c.ID == "C11" {
 		// a third of the fetches happen on an instance that has executed before (other facts)
 		r := core.NewRand(core.Mix(rs, 0x11))
